@@ -279,7 +279,9 @@ pub fn check(c: &Case, obs: &mut Obs) -> Result<(), String> {
     let mut all = vec![];
     let mut bad_end = None;
     for (i, e) in c.entries.iter().enumerate() {
-        let ok_shape = !e.0.is_empty() && e.0.ends_with(b"\n") && !e.0.starts_with(b"\n") && !e.0.windows(2).any(|w| w == b"\n\n") && !e.0.contains(&b'\r');
+        let ok_shape = !e.0.is_empty() && e.0.ends_with(b"\n") && !e.0.starts_with(b"\n") && !e.0.windows(2).any(|w| w == b"\n\n") && !e.0.windows(2).any(|w| w == b"\r\n");
+        // (a CR directly in front of a LF is a DOS line end to the entry parser and would not be
+        // printed back; a CR anywhere else is an ordinary byte of the value)
         if !ok_shape {
             obs.excluded = true;
             return Ok(());
